@@ -24,6 +24,26 @@ Not decided: identity of the UDP and TCP responses when the answer fits (needs t
 ASSUMPTIONS = ['every CFG path is assumed feasible']
 
 
+def transport_param_is_received(F, fn, idx, depth=0):
+    """Parameter `idx` of fn (a Transport) is, at every call site in server::*, the transport of the received message
+    (`<context>.received_info.transport`), possibly forwarded through further Transport parameters."""
+    if depth > 4:
+        return False
+    sites = [(g, b, t) for g in server_fns(F) for b, t in g.calls() if callee_name(t) == fn.gpath]
+    if not sites:
+        return False
+    for g, b, t in sites:
+        a = t['args'][idx - 1]
+        txt = paths.show_operand(g, a)
+        if re.match(r'^arg\d\.received_info\.transport$', txt):
+            continue
+        m = re.match(r'^arg(\d)$', txt)
+        if m and 'server::Transport' in g.local_ty(int(m.group(1))) and transport_param_is_received(F, g, int(m.group(1)), depth + 1):
+            continue
+        return False
+    return True
+
+
 def check(R, F):
     hm = F.fn(HANDLE_MESSAGE)
     # ---- (a)
@@ -61,9 +81,16 @@ def check(R, F):
     for fn, b, t in tcs:
         g = paths.dom_guards(fn, b)
         udp = any(re.match(r'^Transport::eq\(arg\d\.received_info\.transport,Transport::Tcp\) in \[0\]$', x) for x in g) or any(re.match(r'^Transport::eq\(arg\d\.received_info\.transport,Transport::Udp\) not in \[0\]$', x) for x in g) or any(re.match(r'^rrl::subject_to_rrl\(arg2\) not in \[0\]$', x) for x in g)
+        if not udp:
+            # a helper that receives the transport as a parameter: the guard tests that parameter, and every caller
+            # (transitively, inside server::*) passes the transport of the received message
+            for x in g:
+                m = re.match(r'^Transport::eq\(arg(\d),Transport::(Tcp\) in|Udp\) not in) \[0\]$', x)
+                if m and 'server::Transport' in fn.local_ty(int(m.group(1))):
+                    udp = transport_param_is_received(F, fn, int(m.group(1)))
         clr = [cb for cb, ct in calls_in(fn, W + 'clear_rrs') if fn.dominates(cb, b)]
         R.require(udp and bool(clr), 'tc-only-udp', '%s|set_tc' % fn.gpath, fn.where(b), 'TC set only on a UDP path, after clear_rrs', 'set_tc(true) at %s is %s%s' % (fn.where(b), '' if udp else 'not confined to UDP ', '' if clr else 'not preceded by clear_rrs'))
-    R.require(len(tcs) == 2, 'tc-only-udp', 'server|tc-sites', '', 'two set_tc(true) sites (truncation, RRL slip)', 'set_tc(true) sites: %s' % [x[0].gpath for x in tcs])
+    R.require(len(tcs) >= 2, 'tc-only-udp', 'server|tc-sites', '', '%d set_tc(true) sites, all confined to UDP' % len(tcs), 'set_tc(true) sites: %s' % [x[0].gpath for x in tcs], nontrivial=False)
     hn = F.fn(HANDLE_NON_AXFR)
     pe = enum_variants(F, 'server::ProcessingError')
     sw = tables.switches(hn, r'^discr\(.*@Err\.0\)$')
